@@ -23,6 +23,8 @@ pub struct ExecCase {
     pub faults: Vec<u32>,
     /// kind of the dispatch that follows the caught panic(s) (C14)
     pub next: char,
+    /// at the end the dispatcher is handed, as a system, to an outer dispatcher which sets it up, runs it and disposes it
+    pub nest: bool,
     pub regs: Vec<Reg>,
 }
 
@@ -36,11 +38,12 @@ impl ExecCase {
         };
         let calls: Vec<String> = self.calls.iter().map(|c| c.to_string()).collect();
         let faults = if self.faults.is_empty() { "-".to_string() } else { self.faults.iter().map(|t| t.to_string()).collect::<Vec<_>>().join(",") };
-        format!("exec map={} pool={} mode={} calls={} faults={} next={}", self.map.name(), self.pool, mode, calls.join(","), faults, self.next)
+        format!("exec map={} pool={} mode={} calls={} faults={} next={}{}", self.map.name(), self.pool, mode, calls.join(","), faults, self.next,
+                if self.nest { " nest=1" } else { "" })
     }
     pub fn parse(line: &str) -> ExecCase {
         let (head, progt) = line.split_once(" :: ").unwrap_or((line, ""));
-        let mut c = ExecCase { map: MapMode::A, pool: 4, mode: Mode::Free, calls: vec!['d'], faults: vec![], next: 'd', regs: from_text(progt) };
+        let mut c = ExecCase { map: MapMode::A, pool: 4, mode: Mode::Free, calls: vec!['d'], faults: vec![], next: 'd', nest: false, regs: from_text(progt) };
         for t in head.split(' ') {
             if let Some(v) = t.strip_prefix("map=") { c.map = MapMode::parse(v); }
             if let Some(v) = t.strip_prefix("pool=") { c.pool = v.parse().unwrap(); }
@@ -51,6 +54,7 @@ impl ExecCase {
                     else { panic!("mode") };
             }
             if let Some(v) = t.strip_prefix("calls=") { c.calls = v.split(',').filter(|s| !s.is_empty()).map(|s| s.chars().next().unwrap()).collect(); }
+            if let Some(v) = t.strip_prefix("nest=") { c.nest = v == "1"; }
             if let Some(v) = t.strip_prefix("next=") { c.next = v.chars().next().unwrap_or('d'); }
             if let Some(v) = t.strip_prefix("faults=") { c.faults = if v == "-" { vec![] } else { v.split(',').map(|s| s.parse().unwrap()).collect() }; }
         }
@@ -441,6 +445,27 @@ pub fn observe(c: &ExecCase, env: &mut ExecEnv) -> String {
             }));
             s.push_str(&format!("twin={};twinstates={};twinok={};", world_values(&c.regs, c.map, &w2), states(&out2.handles), if r.is_ok() { 1 } else { 0 }));
         }
+    }
+    // --- nested (C12/C13/C04): the dispatcher driven as a system of an outer dispatcher — through RunNow for
+    // SendDispatcher when it has no thread-local systems, through RunNow for Dispatcher otherwise
+    if c.nest {
+        let mut ob = shred::DispatcherBuilder::new();
+        #[cfg(feature = "parallel")]
+        ob.add_pool(pool.clone());
+        match dispatcher.try_into_sendable() {
+            Ok(sd) => ob.add_thread_local(sd),
+            Err(d) => ob.add_thread_local(d),
+        }
+        let mut outer = ob.build();
+        let r = catch_unwind(AssertUnwindSafe(|| outer.setup(&mut world)));
+        s.push_str(&format!("setupN={};setupNok={};", encode(&rec.take()), if r.is_ok() { 1 } else { 0 }));
+        let r = catch_unwind(AssertUnwindSafe(|| outer.dispatch(&world)));
+        let log = fix_multi(rec.take(), &multis);
+        let payload = match &r { Ok(()) => "-".to_string(), Err(p) => hexs(&payload_string(p)) };
+        s.push_str(&format!("TNest={};PNest={};", encode(&log), payload));
+        let r = catch_unwind(AssertUnwindSafe(|| outer.dispose(&mut world)));
+        s.push_str(&format!("dispose={};disposeok={};", encode(&rec.take()), if r.is_ok() { 1 } else { 0 }));
+        return s;
     }
     // --- dispose (C13)
     let r = catch_unwind(AssertUnwindSafe(|| if via_trait { shred::RunNow::dispose(Box::new(dispatcher), &mut world) } else { dispatcher.dispose(&mut world) }));
